@@ -1447,6 +1447,58 @@ def rule_cr_needs_rows(ctx, crate, rule="R-ERASE-STAYS-IN-REGION"):
     ctx.extra.setdefault("erase_cr_sites", {})[cfg] = len(crs)
 
 
+def rule_counted_newline_row_followed(ctx, crate, rule="R-FRAME-ENDS-ON-COUNTED-ROW"):
+    """The paint routine leaves the cursor *on* the last row it counts (every painted line is followed by a newline only when
+    another line comes; the last one gets the right-edge filler): the next erase starts from there. Blank padding rows
+    (`write_line("")` in a loop whose trip count flows into the committed count - Bottom alignment) each end with a
+    newline, i.e. they leave the cursor one row *below* themselves. That is consistent only when another row of the frame is
+    painted there. If the frame can end right after the padding (no line left to paint: clear(), suspend(), the last bar
+    finished-and-cleared), the cursor is parked one row below the counted region: the next erase wipes a row that is not
+    part of the region and the whole region drifts down one row per clear/suspend (scrolling the screen at the bottom).
+    Checked: from every counted padding write there is no path to `flush()` that paints no line."""
+    cfg = crate.config
+    info = emitter_commit_info(ctx, crate, rule)
+    if not info:
+        return
+    pb, p, commits, acc = info
+    paints = line_paint_calls(pb)
+    flushes = tl_calls(pb, "flush")
+    if not paints or not flushes:
+        ctx.lost(rule, cfg, "paint routine without per-line paint calls or flush()")
+        return
+    pads = [c for c in tl_calls(pb, "write_line") if pb.in_loop(c.bb) and len(c.args) > 1
+            and pb.slice_args(c, [1], through_calls=False).consts() & {""} and not pb.slice_args(c, [1]).has_call(r"std::convert::AsRef::as_ref")]
+    eb = the_emitter(ctx, crate, rule)
+    cloc = set()
+    for i, j, s_ in ([(i, j, s_) for i, j, s_ in eb.assigns() if s_["lhs"]["l"] == count_param(eb) and "*" in s_["lhs"]["p"]] if eb is pb else []):
+        cloc |= pb.slice_rv(i, s_).locals
+    err_blocks = set()
+    for k in pb.calls(K.TRY_BRANCH):
+        te = K.try_edges(pb, k)
+        if te:
+            err_blocks |= pb.edge_region((te[0], te[2]))
+    n = 0
+    for k, c in enumerate(pads):
+        # counted? the loop the padding is written in is driven by a row count that also reaches the commit
+        drivers = [nx for nx in pb.calls(r"std::iter::Iterator::next") if c.bb in pb.reach_after(nx.bb) and nx.bb in pb.reach_after(c.bb)]
+        counted = False
+        for nx in drivers:
+            ls = pb.slice_args(nx, [0]).locals
+            if any(pb.locals[l].get("head") == VL and l in cloc for l in ls):
+                counted = True
+        if not counted:
+            continue
+        n += 1
+        seen = pb.reach([c.target] if c.target is not None else [], avoid={x.bb for x in paints} | err_blocks)
+        leak = sorted(x.bb for x in flushes if x.bb in seen)
+        ctx.check(not leak, rule, "padding-then-nothing#%d" % k, pb.name, c.loc(),
+                  "after a counted, newline-terminated padding row another row of the frame is always painted",
+                  "a frame can end right after newline-terminated padding rows that are part of the committed count (MultiProgressAlignment::Bottom with "
+                  "nothing left to paint): the cursor is left one row below the counted region, so every clear()/suspend() moves the region down one row "
+                  "and the erase wipes a row that never belonged to it", cfg)
+    ctx.extra.setdefault("counted_padding_sites", {})[cfg] = n
+
+
 def rule_render_unless_hidden(ctx, crate, rule="R-RENDER-UNLESS-HIDDEN"):
     """Every function that rebuilds a bar's stored rendering (it takes the slot's DrawState, which empties it, and draws)
     renders the bar again unless it is finished-and-cleared: on the CFG specialised to status = DoneHidden the call to
